@@ -5,7 +5,8 @@ P=$1; N=$2; W=/tmp/seed/$P; O=/tmp/seed/$P-out
 cd $W || exit 2
 git checkout -q -- . ; git apply $O/patch$N.diff || { echo "patch does not apply"; exit 2; }
 PYTHONPATH=$W/src timeout 600 /venv/bin/python $O/demo$N.py > $O/demo$N.with.log 2>&1; with=$?
-mkdir -p $O/tmp; PYTHONPATH=$W/src TMPDIR=$O/tmp env -u COBRAPY_VERIF timeout 3000 /venv/bin/python -m pytest -q -p no:cacheprovider --timeout=900 -n ${NPROC:-6} --junitxml=$O/junit$N.xml tests > $O/pytest$N.log 2>&1
+mkdir -p $O/tmp; PYTHONPATH=$W/src TMPDIR=$O/tmp env -u COBRAPY_VERIF timeout 3000 /venv/bin/python -m pytest -q -p no:cacheprovider --timeout=900 -n ${NPROC:-6} --junitxml=$O/junit$N.xml --ignore=tests/test_io/test_sbml.py tests > $O/pytest$N.log 2>&1
+PYTHONPATH=$W/src TMPDIR=$O/tmp env -u COBRAPY_VERIF timeout 1200 /venv/bin/python -m pytest -q -p no:cacheprovider --timeout=900 --junitxml=$O/junit${N}b.xml tests/test_io/test_sbml.py >> $O/pytest$N.log 2>&1
 git checkout -q -- .
 PYTHONPATH=$W/src timeout 600 /venv/bin/python $O/demo$N.py > $O/demo$N.without.log 2>&1; without=$?
 /venv/bin/python - $P "$N" $with $without <<'PY'
@@ -14,7 +15,8 @@ P, N, w, wo = sys.argv[1], sys.argv[2], int(sys.argv[3]), int(sys.argv[4])
 O = f"/tmp/seed/{P}-out"
 base = set(json.load(open('/root/.vp/BASELINE.json'))['stable_pass'])
 passed = set()
-for tc in ET.parse(f"{O}/junit{N}.xml").iter('testcase'):
+import itertools
+for tc in itertools.chain(ET.parse(f"{O}/junit{N}.xml").iter('testcase'), ET.parse(f"{O}/junit{N}b.xml").iter('testcase')):
     if not any(ch.tag in ('failure', 'error', 'skipped') for ch in tc):
         passed.add(f"{tc.get('classname')}::{tc.get('name')}")
 missing = sorted(base - passed)
